@@ -372,6 +372,21 @@ func genTimeline(t *rapid.T) Case {
 		{Host: v, Name: "d4", Type: "OrderedCollection", ClaimDoc: -1},
 		{Host: a, Name: "d5", Type: "Create", ClaimDoc: rapid.SampledFrom([]int{-1, -2}).Draw(t, "actid"), Links: []Link{{Key: "actor", Target: 0, Shape: "ref"}, {Key: "object", Target: 3, Shape: shape("objshape", "embed", "embed", "ref", "wrapped")}}},
 	}
+	// the victim's side: an actor of its own, and a post whose replies are kept by the attacker's host
+	c.Docs = append(c.Docs,
+		Doc{Host: v, Name: "d6", Type: "Person", ClaimDoc: -1},
+		Doc{Host: a, Name: "d7", Type: rapid.SampledFrom([]string{"OrderedCollection", "Collection"}).Draw(t, "repliestype"), ClaimDoc: rapid.SampledFrom([]int{-1, -1, -2}).Draw(t, "repliesid")},
+		Doc{Host: v, Name: "d8", Type: "Note", ClaimDoc: -1, Links: []Link{{Key: "inReplyTo", Target: 3, Shape: "ref"}}})
+	c.Docs[7].Links = []Link{{Key: "items", Target: 8, Shape: shape("replyshape", "embed", "embed", "wrapped", "ref"), InList: true}}
+	if strings.HasPrefix(c.Docs[7].Type, "Ordered") {
+		c.Docs[7].Links[0].Key = "orderedItems"
+	}
+	if rapid.Bool().Draw(t, "foreignreplies") {
+		c.Docs[3].Links = append(c.Docs[3].Links, Link{Key: "replies", Target: 7, Shape: "ref"})
+	}
+	if rapid.Bool().Draw(t, "victimactor") {
+		c.Docs[5].Links[0].Target = 6 // the activity names an actor of the victim's host
+	}
 	item := Link{Key: "orderedItems", Target: rapid.SampledFrom([]int{3, 3, 5}).Draw(t, "item"), Shape: shape("itemshape", "embed", "embed", "wrapped", "ref"), InList: true}
 	if rapid.Bool().Draw(t, "paged") {
 		c.Docs[1].Links = []Link{{Key: "first", Target: 2, Shape: shape("firstshape", "embed", "embed-noid", "ref", "stub")}}
@@ -389,7 +404,7 @@ func genTimeline(t *rapid.T) Case {
 		}
 	}
 	if rapid.Bool().Draw(t, "morefetches") {
-		c.Fetches = append(c.Fetches, rapid.SampledFrom([]int{1, 2, 3, 5, 0}).Draw(t, "fetch2"))
+		c.Fetches = append(c.Fetches, rapid.SampledFrom([]int{1, 2, 3, 3, 5, 5, 7, 0}).Draw(t, "fetch2"))
 	}
 	return c
 }
